@@ -35,7 +35,9 @@ type Config struct {
 	// established; every repetition costs a worker restart).
 	// SyncTree: this check does not judge the tree; where the observed tree
 	// differs from the reference (a C18 matter) the reference follows the store.
-	SyncTree    bool
+	SyncTree bool
+	// Pagination: also run the large-directory boundary scenarios (pagination.go).
+	Pagination  bool
 	CrashBudget int
 	// OwnsCrash: whether a crashing / non-returning request violates this property.
 	Assumptions []string
@@ -424,6 +426,9 @@ func Run(r *mc.Run, cfg *Config) {
 	}
 	// initial state
 	rn := getRunner()
+	if cfg.Pagination {
+		paginationScenarios(r, rn.w)
+	}
 	rn.w.Reset()
 	st0 := rn.w.Observe(rn.ids)
 	h0 := hashOf(Canon(&st0, Model{}))
@@ -790,6 +795,17 @@ func readJSON(path string, v interface{}) {
 // replayMode re-executes one case in a child process (so that a request that
 // never returns is observed as such) and reports its verdict.
 func replayMode(r *mc.Run, cfg *Config) {
+	var pc pagCase
+	if err := r.ReplayCase(&pc); err == nil && pc.Pag > 0 {
+		base := mc.TempDir("fsys-pag")
+		defer os.RemoveAll(base)
+		class, v, msg := pagOne(NewWorld(base), pc)
+		fmt.Printf("replayed %+v: class=%s verdict=%q\n", pc, class, v)
+		if v != "" {
+			r.Violate(v, msg, pc, nil)
+		}
+		return
+	}
 	var c caseDescr
 	if err := r.ReplayCase(&c); err != nil {
 		mc.Fatal("replay: %v", err)
